@@ -77,7 +77,7 @@ def _setup_types(kind, syms):
 
 
 ENV = T('sym', 'sys.stdin.encoding')
-ENV_GRID = ('utf-8', 'latin-1', 'ascii', 'utf-16', None)
+ENV_GRID = ('utf-8', 'latin-1', 'ascii', 'utf-16', None, 'UTF-8', 'Latin-1')
 
 
 def _env_hook(v, val):
@@ -290,7 +290,12 @@ SLUG_INPUTS = ('Hello World', '\xc0\xc9 caf\xe9', '™ trade', '№5',
                # letters / numbers whose compatibility decomposition
                # contains ASCII punctuation
                '\u2474', 'x\u2488y', '\U0001f102', '\u3220', '\u2160.',
-               '\u00bd', '\u2100', '\u33c2', '1\u2044 2')
+               '\u00bd', '\u2100', '\u33c2', '1\u2044 2',
+               # every ASCII character that is neither a word character,
+               # white space nor a hyphen is dropped - the first and the
+               # last of them too
+               '\x7f', 'a\x7fb', '\x00a', 'a\x01b', 'a~b', 'a!b', 'a\x1fb',
+               '\x7f-\x7f', 'a\x80b', 'a\x85b', 'a\xa0b')
 SLUG_OK = re.compile(r'[a-z0-9_-]*\Z')
 
 
